@@ -273,6 +273,7 @@ static inline
 void dyadic_rational_neg(lp_dyadic_rational_t* neg, const lp_dyadic_rational_t* a) {
   assert(dyadic_rational_is_normalized(a));
   mpz_neg(&neg->a, &a->a);
+  neg->n = a->n;
 }
 
 static inline
